@@ -126,7 +126,7 @@ def catalogue():
     add("nn.symdel-invalid", lambda: [[]], lambda a: nn.symdel(a[0]))
     add("nn.kdtree-invalid", lambda: [["CAXA"]], lambda a: nn.kdtree(a[0]))
     add("nn.nearest_neighbor_tcrdist", lambda: [tab()], lambda a: nn.nearest_neighbor_tcrdist(a[0], chain="beta", max_edits=2, max_tcrdist=60))
-    add("nn.nearest_neighbor_tcrdist-kwargs", lambda: [tab(), {"ntrim": 2}],
+    add("nn.nearest_neighbor_tcrdist-kwargs", lambda: [tab(), {"ntrim": 2, "dist_weight": 5, "gap_penalty": 7}],
         lambda a: nn.nearest_neighbor_tcrdist(a[0], chain="alpha", max_edits=2, max_tcrdist=90, tcrdist_kwargs=a[1]))
     # stats
     add("stats.pc", lambda: [seqs()], lambda a: stats.pc(a[0]))
@@ -144,6 +144,7 @@ def catalogue():
     add("stats.jaccard_index", lambda: [seqs(), seqs2()], lambda a: [stats.jaccard_index(a[0], a[1]), stats.overlap(a[0], a[1]), stats.overlap_coefficient(a[0], a[1])])
     add("stats.subsample", lambda: [[3, 0, 2, 5]], lambda a: stats.subsample(a[0], 4), True)
     add("stats.powerlaw_sample", lambda: [], lambda a: stats.powerlaw_sample(size=5, xmin=2, alpha=2.5), True)
+    add("stats.powerlaw_mle_alpha-bounds", lambda: [[1, 1, 2, 3, 1, 7, 2, 1, 12]], lambda a: stats.powerlaw_mle_alpha(a[0], method="exact", bounds=[2.5, 3.5]))
     add("stats.powerlaw_mle_alpha", lambda: [[1, 1, 2, 3, 1, 7, 2, 1, 12]], lambda a: [stats.powerlaw_mle_alpha(a[0], method=m) for m in ("simple", "continuitycorrection", "exact")])
     # distance
     add("distance.pdist", lambda: [seqs()], lambda a: distance.pdist(a[0]))
@@ -165,6 +166,9 @@ def catalogue():
     add("distance.hierarchical_clustering", lambda: [seqs()], lambda a: distance.hierarchical_clustering(a[0]))
     add("distance.hierarchical_clustering-metric1", lambda: [seqs()], lambda a: distance.hierarchical_clustering(a[0], metric=WeightedLevenshtein()))
     add("distance.hierarchical_clustering-metric2", lambda: [seqs()], lambda a: distance.hierarchical_clustering(a[0], metric=WeightedLevenshtein(substitution_weight=3)))
+    add("distance.hierarchical_clustering-large", lambda: [[("CA" + "".join("ACDE"[(i >> (2 * j)) & 3] for j in range(5))) for i in range(1001)]],
+        lambda a: distance.hierarchical_clustering(a[0])[1][:50])
+    add("distance.hierarchical_clustering-partial-kws", lambda: [seqs(), dict(method="single")], lambda a: distance.hierarchical_clustering(a[0], linkage_kws=a[1]))
     add("distance.hierarchical_clustering-kws", lambda: [seqs(), dict(method="single"), dict(t=1, criterion="distance")],
         lambda a: distance.hierarchical_clustering(a[0], linkage_kws=a[1], cluster_kws=a[2]))
     # metrics
@@ -180,6 +184,14 @@ def catalogue():
     add("io.standardize_dataframe", lambda: [tab()], lambda a: io.standardize_dataframe(a[0], suppress_warnings=True))
     add("io.standardize_dataframe-mapper", lambda: [tab().rename(columns={"TRBV": "v"}), {"v": "TRBV"}],
         lambda a: io.standardize_dataframe(a[0], col_mapper=a[1], standardize=False))
+    add("io.standardize_dataframe-mapper-collision", lambda: [tab().assign(v_b_gene=["TRBV2*01"] * 4), {"v_b_gene": "TRBV", "g": "group"}],
+        lambda a: io.standardize_dataframe(a[0], col_mapper=a[1], suppress_warnings=True))
+    add("io.standardize_dataframe-mapper-reuse", lambda: [tab().rename(columns={"TRBV": "v_b_gene"}), {"v_b_gene": "TRBV", "g": "group"}],
+        lambda a: io.standardize_dataframe(a[0], col_mapper=a[1], suppress_warnings=True))
+    add("io.multimerge-inner", lambda: [[pd.DataFrame({"k": ["a", "b"], "x": [1, 2]}), pd.DataFrame({"k": ["b", "c"], "y": [3, 4]})]],
+        lambda a: io.multimerge(a[0], "k", how="inner"))
+    add("io.multimerge-default", lambda: [[pd.DataFrame({"k": ["a", "b"], "x": [1, 2]}), pd.DataFrame({"k": ["b", "c"], "y": [3, 4]})]],
+        lambda a: io.multimerge(a[0], "k"))
     add("io.isvalidcdr3", lambda: [["CASSF", "", None, 5, "CAXF"]], lambda a: [[io.isvalidaa(x), io.isvalidcdr3(x)] for x in a[0]])
     add("io.multimerge", lambda: [[pd.DataFrame({"k": ["a", "b"], "x": [1, 2]}), pd.DataFrame({"k": ["b", "c"], "y": [3, 4]})], ["l", "r"]],
         lambda a: io.multimerge(a[0], "k", suffixes=a[1]))
